@@ -142,7 +142,7 @@ pub fn exec(c: &Case, em: &mut Emitter) {
     let real = Instant::now();
     let mut turns = 0u64;
     let mut written = false;
-    while out.lock().unwrap().iter().any(Option::is_none) && now() < T0 + 3000 * MS && turns < 2000 {
+    while out.lock().unwrap().iter().any(Option::is_none) && now() < T0 + 3000 * MS && turns < 4000 {
         if !written && now() >= T0 + 15 * MS {
             for (_, fd) in &peers {
                 let b = [7u8];
@@ -150,7 +150,9 @@ pub fn exec(c: &Case, em: &mut Emitter) {
             }
             written = true;
         }
-        let _ = lp.wait_event(Some(SLICE));
+        // (turns shorter than the 10 ms wait slice: a readiness event can then arrive while the
+        // waiter's slice deadline still lies ahead)
+        let _ = lp.wait_event(Some(Duration::from_millis(3)));
         turns += 1;
     }
     let res: Vec<Value> = out.lock().unwrap().iter().map(|o| match o {
